@@ -30,7 +30,7 @@ func exec(t []string) string {
 	case "reset":
 		lih = 0
 		return sim.Exec(t)
-	case "deliver":
+	case "deliver", "deliverc":
 		before := sim.N.ActiveChain()
 		out := sim.Exec(t)
 		after := sim.N.ActiveChain()
@@ -58,7 +58,7 @@ func exec(t []string) string {
 func oracle(t []string, out string) *hx.Violation { return pending }
 
 func nontrivial(t []string, out string) bool {
-	return t[0] == "deliver" && strings.HasPrefix(out, "side")
+	return strings.HasPrefix(t[0], "deliver") && strings.HasPrefix(out, "side")
 }
 
 func gen(g *hx.Gen) {
@@ -91,9 +91,13 @@ func one(g *hx.Gen) {
 				l = 0
 			}
 		}
+		if r.Chance(12) {
+			l = tipH + r.Intn(3) // recorded above the tip (first blocks after a hand-over)
+		}
 		dpos := r.Intn(2)
 		rs := []int{1, tipH, tipH + 1, 1000000}[r.Intn(4)]
 		g.Emit("irr %d %d %d", l, dpos, rs)
+		h.WithConfirm = dpos == 0 && r.Bool() // confirmations are ignored in POW mode
 		depth := 1 + r.Intn(8)
 		if depth > tipH {
 			depth = tipH
@@ -109,6 +113,15 @@ func one(g *hx.Gen) {
 			h.Deliver(b)
 		}
 		g.Emit("obs c h")
+		// a refused fork keeps growing: it must stay refused however far it gets ahead
+		if tip, _ := sim.N.Tip(); tip != sim.BranchTip(br).Hash() {
+			for k := 1 + r.Intn(2*depth+3); k > 0; k-- {
+				b := h.HonestBlock(br, 0)
+				br = regnet.Extend(br, b)
+				h.Deliver(b)
+			}
+			g.Emit("obs c h")
+		}
 		tip, _ := sim.N.Tip()
 		if tip == sim.BranchTip(br).Hash() {
 			trunk = br
